@@ -1,0 +1,105 @@
+//go:build verif
+
+// Contracts for package shp (geometry <-> shapefile shape conversion), checked
+// by /verif/engine (govc). Comment-only.
+
+package shp
+
+//@ pred samePt(a geom.Point, b shp.Point) = biteq(a.X, b.X) && biteq(a.Y, b.Y)
+// partsOK: part offsets as the shapefile format defines them (first 0 not required here)
+//@ pred partsOK(parts []int32, n int) = (forall i int :: 0 <= i && i < len(parts) ==> 0 <= parts[i] && parts[i] <= n) && (forall i int :: 0 <= i && i + 1 < len(parts) ==> parts[i] <= parts[i+1])
+//@ spec partEnd(parts []int32, n int, i int) int = i == len(parts) - 1 ? n : parts[i+1]
+
+//@ func getStartEnd
+//@   prop C16
+//@   requires [index] 0 <= i && i < len(parts)
+//@   ensures [range] start == parts[i] && end == partEnd(parts, len(points), i)
+//@   modifies nothing
+
+//@ func point2geom
+//@   prop C16
+//@   mode fp
+//@   ensures [same] typeof(result) == geom.Point && samePt(result.(geom.Point), s)
+//@   modifies nothing
+
+//@ func geom2point
+//@   prop C16
+//@   mode fp
+//@   ensures [same] typeof(result) == *shp.Point && result.(*shp.Point) != nil && samePt(g, *result.(*shp.Point))
+//@   modifies nothing
+
+//@ func multiPoint2geom
+//@   prop C16
+//@   mode fp
+//@   ensures [same] typeof(result) == geom.MultiPoint && len(result.(geom.MultiPoint)) == len(s.Points) && (forall k int :: 0 <= k && k < len(s.Points) ==> samePt(result.(geom.MultiPoint)[k], s.Points[k]))
+//@   modifies nothing
+//@   loop 1 `for i, p := range s.Points`
+//@     invariant fresh(mp) && len(mp) == len(s.Points) && #1 <= len(s.Points) && (forall k int :: 0 <= k && k < #1 ==> samePt(mp[k], s.Points[k]))
+
+//@ opaque pred partIs(line []geom.Point, pts []shp.Point, start int, end int) = len(line) == end - start && (forall b int :: start <= b && b < end ==> samePt(line[b - start], pts[b]))
+
+//@ func polyLine2geom
+//@   prop C16
+//@   mode fp
+//@   requires [parts] partsOK(s.Parts, len(s.Points))
+//@   ensures [parts] typeof(result) == geom.MultiLineString && len(result.(geom.MultiLineString)) == len(s.Parts)
+//@   ensures [points] forall a int :: 0 <= a && a < len(s.Parts) ==> partIs(result.(geom.MultiLineString)[a], s.Points, s.Parts[a], partEnd(s.Parts, len(s.Points), a))
+//@   modifies nothing
+//@   loop 1 `for i := 0; i < len(s.Parts); i++`
+//@     invariant 0 <= i && i <= len(s.Parts) && fresh(pl) && len(pl) == len(s.Parts) && (forall a int :: 0 <= a && a < i ==> fresh(pl[a]) && partIs(pl[a], s.Points, s.Parts[a], partEnd(s.Parts, len(s.Points), a)))
+//@     decreases len(s.Parts) - i
+//@   loop 2 `for j := start; j < end; j++`
+//@     invariant start <= j && j <= end && start == s.Parts[i] && end == partEnd(s.Parts, len(s.Points), i) && 0 <= i && i < len(s.Parts) && fresh(pl) && len(pl) == len(s.Parts) && fresh(pl[i]) && len(pl[i]) == end - start && (forall b int :: start <= b && b < j ==> samePt(pl[i][b - start], s.Points[b])) && (forall a int :: 0 <= a && a < i ==> fresh(pl[a]) && !sameObj(pl[a], pl[i]) && partIs(pl[a], s.Points, s.Parts[a], partEnd(s.Parts, len(s.Points), a)))
+//@     decreases end - j
+
+//@ func polygon2geom
+//@   prop C16
+//@   mode fp
+//@   requires [parts] partsOK(s.Parts, len(s.Points))
+//@   requires [no_reorientation] !FixOrientation
+//@   ensures [rings] typeof(result) == geom.Polygon && len(result.(geom.Polygon)) == len(s.Parts)
+//@   ensures [points] forall a int :: 0 <= a && a < len(s.Parts) ==> partIs(result.(geom.Polygon)[a], s.Points, s.Parts[a], partEnd(s.Parts, len(s.Points), a))
+//@   modifies nothing
+//@   loop 1 `for i := 0; i < len(s.Parts); i++`
+//@     invariant 0 <= i && i <= len(s.Parts) && fresh(pg) && len(pg) == len(s.Parts) && (forall a int :: 0 <= a && a < i ==> fresh(pg[a]) && partIs(pg[a], s.Points, s.Parts[a], partEnd(s.Parts, len(s.Points), a)))
+//@     decreases len(s.Parts) - i
+//@   loop 2 `for j := end - 1; j >= start; j--`
+//@     invariant start - 1 <= j && j <= end - 1 && start == s.Parts[i] && end == partEnd(s.Parts, len(s.Points), i) && 0 <= i && i < len(s.Parts) && fresh(pg) && len(pg) == len(s.Parts) && fresh(pg[i]) && len(pg[i]) == end - start && (forall b int :: j < b && b < end ==> samePt(pg[i][b - start], s.Points[b])) && (forall a int :: 0 <= a && a < i ==> fresh(pg[a]) && !sameObj(pg[a], pg[i]) && partIs(pg[a], s.Points, s.Parts[a], partEnd(s.Parts, len(s.Points), a)))
+//@     decreases j - start + 1
+
+//@ func geom2multiPoint
+//@   prop C16
+//@   mode fp
+//@   opt trustpre=geom
+//@   requires [fits_int32] len(g) <= 2147483647
+//@   ensures [same] typeof(result) == *shp.MultiPoint && result.(*shp.MultiPoint) != nil && len(result.(*shp.MultiPoint).Points) == len(g) && result.(*shp.MultiPoint).NumPoints == len(g) && (forall k int :: 0 <= k && k < len(g) ==> samePt(g[k], result.(*shp.MultiPoint).Points[k]))
+//@   loop 1 `for i, p := range g`
+//@     invariant mp != nil && fresh(mp) && fresh(mp.Points) && len(mp.Points) == len(g) && mp.NumPoints == len(g) && #1 <= len(g) && (forall k int :: 0 <= k && k < #1 ==> samePt(g[k], mp.Points[k]))
+
+// Ring copy of geom2polygon: same vertices in the same order, plus the first
+// vertex again when the ring was not closed.
+//@ opaque pred ringCopied(part []shp.Point, r []geom.Point) = (len(part) == len(r) || len(part) == len(r) + 1) && (forall k int :: 0 <= k && k < len(r) ==> samePt(r[k], part[k])) && (len(part) == len(r) + 1 ==> len(r) >= 1 && samePt(r[0], part[len(r)]))
+
+//@ func geom2polyLine
+//@   prop C16
+//@   mode fp
+//@   ensures [type] typeof(result) == *shp.PolyLine
+//@   loop 1 `for i, r := range g`
+//@     invariant fresh(parts) && len(parts) == len(g) && #1 <= len(g) && (forall a int :: 0 <= a && a < #1 ==> fresh(parts[a]) && ringCopied(parts[a], g[a]) && len(parts[a]) == len(g[a]))
+//@   loop 2 `for j, l := range r`
+//@     invariant fresh(parts) && len(parts) == len(g) && #1 < len(g) && #2 <= len(r) && r == g[#1] && fresh(parts[#1]) && len(parts[#1]) == len(r) && (forall k int :: 0 <= k && k < #2 ==> samePt(r[k], parts[#1][k])) && (forall a int :: 0 <= a && a < #1 ==> fresh(parts[a]) && !sameObj(parts[a], parts[#1]) && ringCopied(parts[a], g[a]) && len(parts[a]) == len(g[a]))
+//@   assert [parts_are_copies] `return shp.NewPolyLine(parts)` len(parts) == len(g) && (forall a int :: 0 <= a && a < len(g) ==> ringCopied(parts[a], g[a]) && len(parts[a]) == len(g[a]))
+
+//@ func geom2polygon
+//@   prop C16
+//@   mode fp
+//@   opt trustpre=geom
+//@   ensures [type] typeof(result) == *shp.Polygon
+//@   loop 1 `for i, r := range g`
+//@     invariant [shape] fresh(parts) && len(parts) == len(g) && #1 <= len(g)
+//@     invariant [fresh_parts] forall a int :: 0 <= a && a < #1 ==> fresh(parts[a])
+//@     invariant [copied] forall a int :: 0 <= a && a < #1 ==> ringCopied(parts[a], g[a])
+//@   loop 2 `for j := len(r) - 1; j >= 0; j--`
+//@     invariant fresh(parts) && len(parts) == len(g) && #1 < len(g) && -1 <= j && j <= len(r) - 1 && r == g[#1] && fresh(parts[#1]) && len(parts[#1]) == len(r) && (forall k int :: j < k && k < len(r) ==> samePt(r[k], parts[#1][k])) && (forall a int :: 0 <= a && a < #1 ==> fresh(parts[a]) && !sameObj(parts[a], parts[#1]) && ringCopied(parts[a], g[a]))
+//@     decreases j + 1
+//@   assert [rings_copied_and_closed] `p := shp.Polygon(*shp.NewPolyLine(parts))` len(parts) == len(g) && (forall a int :: 0 <= a && a < len(g) ==> ringCopied(parts[a], g[a]))
